@@ -48,6 +48,24 @@ func runC06(r *Run) {
 	if route == nil {
 		r.Bad("R1", "anchor/NewAnteHandler$1", "", "route closure not found")
 	} else {
+		// R7: the router answers success only through a route
+		r.Rule("R7", "PATH.no-success-without-a-route: every return of NewAnteHandler's closure whose error is not a fresh failure is the result of calling a handler value (one of the three route chains, R1) — there is no path on which the router itself says 'accepted' (a fast path for genesis transactions, for simulations, for a trusted sender): such a transaction skips signature, nonce and fee checks and every message gate alike")
+		{
+			isRouteCall := func(in ssa.Instruction) bool {
+				c, ok := in.(ssa.CallInstruction)
+				if !ok || c.Common().IsInvoke() || c.Common().StaticCallee() != nil {
+					return false
+				}
+				_, isBuiltin := c.Common().Value.(*ssa.Builtin)
+				return !isBuiltin && namedName(c.Common().Value.Type()) == "AnteHandler"
+			}
+			w := PathQuery{Fn: route, Block: isRouteCall, Target: func(in ssa.Instruction) bool {
+				ret, ok := in.(*ssa.Return)
+				return ok && classifyExit(ret) != ExitFailure
+			}}.Search()
+			r.Check(w == nil, "R7", fnID(route)+"#success-only-through-a-route", P.Pos(fnPos(route)), "every non-failure return follows a call of a route handler",
+				"the ante router can return without an error on a path that calls none of the route handlers: the transaction is executed without signature, nonce, fee or message-type checks", P.witness(w)...)
+		}
 		where := P.Pos(fnPos(route))
 		eq, _ := condEdgesInfo(route, func(x, y ssa.Value) (string, bool) {
 			s, ok := constString(x)
